@@ -54,6 +54,12 @@ def gate_item(n, pos, t):
     if pos == "ret_elided":
         return ("    #[diplomat::opaque]\n    pub struct H%d(u8);\n    impl H%d {\n        pub fn m(&self) -> %s { todo!() }\n    }\n"
                 % (n, n, ty(t, None)), "H%d::m" % n)
+    if pos == "ret_w":
+        return ("    #[diplomat::opaque]\n    pub struct H%d(u8);\n    impl H%d {\n        pub fn m<'a>(&'a self, w: &mut DiplomatWrite) -> %s { todo!() }\n    }\n"
+                % (n, n, T), "H%d::m" % n)
+    if pos == "ret_w_elided":
+        return ("    #[diplomat::opaque]\n    pub struct H%d(u8);\n    impl H%d {\n        pub fn m(&self, w: &mut DiplomatWrite) -> %s { todo!() }\n    }\n"
+                % (n, n, ty(t, None)), "H%d::m" % n)
     if pos in ("field", "outfield"):
         lt = "<'a>" if "'a" in T else ""
         out = "    #[diplomat::out]\n" if pos == "outfield" else ""
